@@ -198,6 +198,12 @@ impl<'a> CapVisitor for RunHist<'a> {
                     }
                 }
                 if !m.v.is_empty() {
+                    // a twin with the same history, truncated by one: the hidden tail is identical
+                    let mut twin: B = m.v.iter().copied().collect();
+                    twin.truncate(m.v.len() - 1);
+                    if b == twin || twin == b {
+                        return Err(Fail::new("equality", "a buffer and its twin truncated by one byte compare unequal (both ways)", "equal"));
+                    }
                     let shorter: B = m.v[..m.v.len() - 1].iter().copied().collect();
                     if b == shorter {
                         return Err(Fail::new("equality", "buffers of different length compare unequal", "equal"));
